@@ -155,8 +155,10 @@ def rows():
         out = []
         for cls_name, o in sources():
             for key, p in o.ParameterDict.items():
-                if key != p.Name:
-                    raise ValueError(f'{cls_name}: ParameterDict key {key!r} != Name {p.Name!r}')
+                if key != p.Name:      # the read loops look a parameter up by its Name: an input written under `key` is never read
+                    _CACHE.setdefault('key_mismatch', []).append((cls_name, key, p.Name))
+                    if any(r['cls'] == cls_name and r['name'] == p.Name for r in out):
+                        continue
                 out.append(row(cls_name, p))
         _CACHE['rows'] = out
     return _CACHE['rows']
@@ -175,6 +177,11 @@ def coq_row(r):
     return (f'mkParam {cs(r["cls"])} {cs(r["name"])} {r["kind"]} {oq(r["default"])} {oq(r["value"])} {qconv.q(r["min"])} '
             f'{qconv.q(r["max"])} {runs} {cs(r["units"])} {cs(r["pref"])} {cs(r["utype"])} {qconv.blit(r["required"])} '
             f'{cs(r["jtype"])} {cs(r["deftxt"])}')
+
+
+def key_mismatches():
+    rows()
+    return list(_CACHE.get('key_mismatch', []))
 
 
 def index():
